@@ -367,9 +367,14 @@ impl IoLoop {
                 // failing.
                 // Only a dropped connection means that; any other failure in that state
                 // (a Secure challenge, a timeout, malformed data) keeps its own error.
+                // And only if our StartOk has actually gone out: a server that goes away
+                // before it could have seen the credentials has not rejected them.
+                let start_ok_sent = !self.inner.has_data_to_write();
                 return match (state, &err) {
                     (HandshakeState::Secure(_, _), Error::UnexpectedSocketClose)
-                    | (HandshakeState::Secure(_, _), Error::IoErrorReadingSocket { .. }) => {
+                    | (HandshakeState::Secure(_, _), Error::IoErrorReadingSocket { .. })
+                        if start_ok_sent =>
+                    {
                         InvalidCredentialsSnafu.fail()
                     }
                     _ => Err(err),
